@@ -485,6 +485,11 @@ pub fn run(tier: Tier) -> i32 {
         let n = clean.packets.len();
         cases.push(Case { label: format!("CUSTOM:cdps = {}", n + 1), bytes: clean.bytes(), mode: vec!["check", "sanity"], filter: None, errors: Some((1, vec!["9001"])), toml: false, stdin: false });
         cases.push(Case { label: format!("CUSTOM:cdps = {}\ntriggers_pht = 55", n + 2), bytes: clean.bytes(), mode: vec!["check", "all", "its"], filter: None, errors: Some((2, vec!["9001", "9002"])), toml: false, stdin: false });
+        // the same failures are in the statistics of runs that print no report (views)
+        for m in [vec!["view", "rdh"], vec!["view", "its-readout-frames"], vec!["view", "its-readout-frames-data"]] {
+            cases.push(Case { label: format!("CUSTOM:cdps = {}", n + 1), bytes: clean.bytes(), mode: m.clone(), filter: None, errors: Some((1, vec!["9001"])), toml: false, stdin: false });
+            cases.push(Case { label: format!("CUSTOM:cdps = {}\ntriggers_pht = 55", n + 2), bytes: clean.bytes(), mode: m, filter: None, errors: Some((2, vec!["9001", "9002"])), toml: true, stdin: true });
+        }
     }
     let res = par_map(&cases, |_, c| run_case(c));
     let mut nontrivial = 0u64;
